@@ -92,7 +92,39 @@ fn norm_loc(loc: &str) -> String {
     loc.trim_start_matches("/repo/").to_string()
 }
 
+thread_local! {
+    static CUR_PROP: RefCell<String> = const { RefCell::new(String::new()) };
+}
+
+/// Violation classes may be namespaced `Cxx/...`; a scenario shared by several properties records
+/// all of them and each property's check keeps its own (un-namespaced classes belong to whichever
+/// property is being run).
+fn keep_for_current_property(class: &str) -> bool {
+    match class.split_once('/') {
+        Some((p, _)) if p.len() == 3 && p.starts_with('C') && p[1..].chars().all(|c| c.is_ascii_digit()) => {
+            CUR_PROP.with(|c| *c.borrow() == p)
+        }
+        _ => true,
+    }
+}
+
+pub fn set_current_property(id: &str) {
+    CUR_PROP.with(|c| *c.borrow_mut() = id.to_string());
+}
+
+fn filtered(mut r: Report) -> Report {
+    r.violations.retain(|v| keep_for_current_property(&v.class));
+    r
+}
+
 pub fn run_one(scn: &Scenario, idx: u64, sim: Sim) -> RunEnd {
+    match run_one_unfiltered(scn, idx, sim) {
+        RunEnd::Ok(r) => RunEnd::Ok(filtered(r)),
+        o => o,
+    }
+}
+
+fn run_one_unfiltered(scn: &Scenario, idx: u64, sim: Sim) -> RunEnd {
     LAST_PANIC.with(|p| *p.borrow_mut() = None);
     let s2 = sim.clone();
     let r = catch_unwind(AssertUnwindSafe(|| (scn.run)(&s2, idx)));
@@ -181,6 +213,7 @@ fn run_batch(prop: &Property, scn: &Scenario, n: u64, batch_seed: u64, threads: 
     std::thread::scope(|s| {
         for _ in 0..threads {
             s.spawn(|| {
+                set_current_property(prop.id);
                 let mut a = Agg::default();
                 loop {
                     if stop.load(Ordering::Relaxed) {
@@ -472,6 +505,7 @@ fn batch_seed() -> u64 {
 }
 
 pub fn cmd_run(prop: &Property, tier: &str, selftest: bool) -> i32 {
+    set_current_property(prop.id);
     let t0 = Instant::now();
     let bseed = batch_seed();
     let nthreads = threads();
@@ -667,6 +701,7 @@ pub fn cmd_run(prop: &Property, tier: &str, selftest: bool) -> i32 {
 }
 
 pub fn cmd_replay(prop: &Property, path: &str) -> i32 {
+    set_current_property(prop.id);
     let txt = match std::fs::read_to_string(path) {
         Ok(t) => t,
         Err(e) => harness_exit(&format!("cannot read {path}: {e}")),
@@ -717,6 +752,7 @@ pub fn cmd_det(prop: &Property, n: u64) -> i32 {
         std::thread::scope(|s| {
             for _ in 0..nthreads {
                 s.spawn(|| loop {
+                    set_current_property(prop.id);
                     let idx = next.fetch_add(1, Ordering::Relaxed);
                     if idx >= n {
                         break;
@@ -762,6 +798,7 @@ pub fn cmd_det(prop: &Property, n: u64) -> i32 {
 
 /// Print the traced execution of one generated run (debugging aid).
 pub fn cmd_show(prop: &Property, scn_name: &str, idx: u64) -> i32 {
+    set_current_property(prop.id);
     let bseed = batch_seed();
     let scn = match prop.scenarios.iter().find(|s| s.name == scn_name) {
         Some(s) => s,
